@@ -266,8 +266,14 @@ func (pqm *ProviderQueryManager) receiveProviders(sessionCtx context.Context, k 
 	// the returned channel -- so that the broadcast never blocks.
 	returnedProviders := make(chan peer.AddrInfo)
 	var receivedProviders deque.Deque[peer.AddrInfo]
-	receivedProviders.Grow(len(receivedInProgressRequest.providersSoFar))
-	for _, addrInfo := range receivedInProgressRequest.providersSoFar {
+	providersSoFar := receivedInProgressRequest.providersSoFar
+	if max > 0 && len(providersSoFar) > max {
+		// Joining a query that already found more providers than this
+		// request asked for: never return more than max.
+		providersSoFar = providersSoFar[:max]
+	}
+	receivedProviders.Grow(len(providersSoFar))
+	for _, addrInfo := range providersSoFar {
 		receivedProviders.PushBack(addrInfo)
 	}
 	incomingProviders := receivedInProgressRequest.incoming
